@@ -11,7 +11,7 @@ import (
 // C10 (lazy half): in safe mode every value obtained from a lazy decode result stays unchanged when the
 // caller overwrites, truncates or reuses the input buffer.
 func runC10(cfg *config, res *monitor.Result) {
-	n := 3000
+	n := 10000
 	if cfg.thorough() {
 		n = 150000
 	}
